@@ -400,6 +400,117 @@ pub fn run(report: &Report, thorough: bool) -> Evidence {
         parts.insert("S2_wrapped_words".into(), json!({"words": nwords, "wrapping_alphabet": "'\"(", "max_wrapping_len": 3, "configurations": cfgs.len(), "pairs_compared": c, "key_events": e}));
     }
 
+    // S4 (fixed layouts): histories WITH backspaces, not re-synchronised. One key can add two code points (traditional joining
+    // puts a ZWNJ in front of u-/uu-/ri-kar), a backspace removes one, so the composed text and the record of raw keys drift
+    // apart; both contexts receive the same events, the composed text and the raw key record are read from the option-off
+    // context (state hook), and the option-on list must be the curled option-off list. Every history over the alphabet up to the
+    // length bound is replayed from the idle state and its last rendering judged.
+    if crate::par::part_enabled("S4") {
+        let before = (compared.load(Ordering::Relaxed), events.load(Ordering::Relaxed));
+        let syms: Vec<Ev> = if thorough { vec![Ev::ch('"'), Ev::ch('r'), Ev::ch('u'), Ev::ch('k'), Ev::Bs, Ev::ch('\'')] } else { vec![Ev::ch('"'), Ev::ch('r'), Ev::ch('u'), Ev::ch('k'), Ev::Bs] };
+        let maxlen = 7;
+        // work item = the first three symbols
+        let n3 = syms.len() * syms.len() * syms.len();
+        let hists = AtomicU64::new(0);
+        par_for(
+            n3 * 2,
+            1,
+            |w| scratch_xdg(&format!("c17s4-{}", w)),
+            |xdg, idx| {
+                let english = idx % 2 == 1;
+                let mut o_on = Opts::fixed(&probhat(), &real_db(), xdg);
+                o_on.fsugg = true;
+                o_on.kar = true;
+                o_on.smart = true;
+                o_on.english = english;
+                let mut o_off = o_on.clone();
+                o_off.smart = false;
+                o_off.xdg = format!("{}-off", xdg);
+                std::fs::create_dir_all(o_off.user_dir()).expect("dir");
+                let mut on = Ctx::new(&o_on).expect("ctx");
+                let mut off = Ctx::new(&o_off).expect("ctx");
+                on.with_pre = false;
+                off.with_pre = false;
+                let mut p = Pair { on, off, avro: &avro, report, samples: &samples, alphabet: &[], need_quote: false, text: String::new(), aux_stack: vec![], no_value: vec![], compared: 0, curled: 0, events: 0 };
+                let j = idx / 2;
+                let first = [j / (syms.len() * syms.len()), (j / syms.len()) % syms.len(), j % syms.len()];
+                // enumerate all histories that start with `first` (length 3 ..= maxlen) by counting in base |syms|
+                let mut stack: Vec<Vec<usize>> = vec![first.to_vec()];
+                if j == 0 {
+                    // the histories shorter than three events belong to the first work item
+                    for a in 0..syms.len() {
+                        stack.push(vec![a]);
+                        for b in 0..syms.len() {
+                            stack.push(vec![a, b]);
+                        }
+                    }
+                }
+                while let Some(h) = stack.pop() {
+                    if h.len() >= 3 && h.len() < maxlen {
+                        for a in 0..syms.len() {
+                            let mut h2 = h.clone();
+                            h2.push(a);
+                            stack.push(h2);
+                        }
+                    }
+                    // a quote must occur, and the history must not end in the idle state trivially (leading backspaces)
+                    if !h.contains(&0) && !(thorough && h.contains(&5)) {
+                        continue;
+                    }
+                    if h[0] == 4 {
+                        continue;
+                    }
+                    let evs: Vec<Ev> = h.iter().map(|&k| syms[k].clone()).collect();
+                    let _ = p.on.apply(&Ev::Finish);
+                    let _ = p.off.apply(&Ev::Finish);
+                    hists.fetch_add(1, Ordering::Relaxed);
+                    let mut last = None;
+                    let mut failed = false;
+                    for (k, e) in evs.iter().enumerate() {
+                        p.events += 2;
+                        match (p.on.apply(e), p.off.apply(e)) {
+                            (Ok(crate::drv::Out::Sugg(x)), Ok(crate::drv::Out::Sugg(y))) => last = Some((x, y)),
+                            (Err(f), _) | (_, Err(f)) => {
+                                report.add(fail_violation("C17", &f, &p.on.opts, &evs[..=k]));
+                                failed = true;
+                                break;
+                            }
+                            _ => {}
+                        }
+                    }
+                    if failed {
+                        continue;
+                    }
+                    if let Some((x, y)) = last {
+                        if y.is_empty() && x.is_empty() {
+                            continue;
+                        }
+                        // the raw key record as the engine holds it (option-off context)
+                        p.text = crate::fxgraph::read_state(&p.off).typed;
+                        p.compared += 1;
+                        let exp = p.expected_on(&y);
+                        let got = x.without_pre();
+                        if got != exp {
+                            report.add(
+                                Violation::new("C17", "wrong-quotes-curled", "backspace-history")
+                                    .opts(&p.on.opts)
+                                    .events(&evs)
+                                    .detail(format!("history with backspaces: option off {}, option on {}, expected with option on {}", y.without_pre().to_json(), got.to_json(), exp.to_json())),
+                            );
+                        } else if got != y.without_pre() {
+                            p.curled += 1;
+                        }
+                    }
+                }
+                compared.fetch_add(p.compared, Ordering::Relaxed);
+                curled.fetch_add(p.curled, Ordering::Relaxed);
+                events.fetch_add(p.events, Ordering::Relaxed);
+            },
+            |_| (),
+        );
+        parts.insert("S4_fixed_backspace_histories".into(), json!({"alphabet": syms.iter().map(|e| e.short()).collect::<Vec<_>>(), "max_len": maxlen, "histories": hists.load(Ordering::Relaxed), "pairs_compared": compared.load(Ordering::Relaxed) - before.0, "key_events": events.load(Ordering::Relaxed) - before.1}));
+    }
+
     let mut ev = Evidence::new("C17", &report.tier, "model_checking");
     ev.set("states", compared.load(Ordering::Relaxed).max(1));
     ev.set("transitions", events.load(Ordering::Relaxed).max(1));
